@@ -872,6 +872,30 @@ example (t : ℚ) (ht : 0 ≤ t) :
   subst this
   exact ⟨hone, hs, w, hr⟩
 
+/-- **the same, stated on the DIFFED model of `RoocSolver::solve_using(auto_solver)`** (`Pipeline.solveUsingAuto`,
+`Rooc/Pipeline.lean`: `Linearizer::linearize` with `map_err(Linearization)`, `auto_solver` with `map_err(Solver)`; compared
+arm by arm and `LpSolution` by `LpSolution` with the real entry point on every run of `./check C03`).  Under the assumption
+`SolverSpec` about microlp for the model the pipeline compiles: `Ok(sol)` labelled Optimal ⇒ `sol` satisfies the source and
+carries the reference's optimum; `Err(Solver(Infeasible))` ⇒ the reference says `infeasible` and no assignment satisfies the
+source. -/
+theorem c03_solve_using_logic_partial {solver : LinModel (Ext K) → MlpOutcome (Ext K)}
+    {m : Model (Ext K)} {t : K} (ht : 0 ≤ t) {maxSteps : Nat}
+    (hm : LogicModel m m.domain) (hsh : AssertShape m) (hok : DeclOK m.domain)
+    (ht1 : t < 1 ∨ NoIntegerVars m.domain)
+    {asg : List (List (String × K))} (ha : assignments m.domain = some asg)
+    (hspec : ∀ lm, Compile.linearize m (.fin t) maxSteps = .ok lm → SolverSpec lm (solver lm)) :
+    (∀ lm sol, Pipeline.solveUsingAuto m (.fin t) maxSteps solver = .solved lm sol → sol.status = .optimal →
+      srcFeasible m (assignmentOf sol) = true ∧
+      (m.optType ≠ .satisfy → ∃ v w, refSolve m = .optimal v w ∧ sol.value = .fin v) ∧
+      (m.optType = .satisfy → ∃ w, refSolve m = .feasibleAny w)) ∧
+    (Pipeline.solveUsingAuto m (.fin t) maxSteps solver = .solver "Infeasible" →
+      refSolve m = .infeasible ∧ ∀ ρ : String → K, srcFeasible m ρ = false) := by
+  refine ⟨fun lm sol hp hst => ?_, fun hp => ?_⟩
+  · obtain ⟨hc, hone⟩ := pipeline_solved hp
+    exact (c03_default_solver_logic_partial ht hc hm hsh hok ht1 ha (hspec lm hc)).1 sol hone hst
+  · obtain ⟨lm, hc, hone⟩ := pipeline_solver hp
+    exact (c03_default_solver_logic_partial ht hc hm hsh hok ht1 ha (hspec lm hc)).2 hone
+
 /-! ### any answer honouring the contract, judged against the SOURCE semantics (no enumerability needed), and the
 fully proved instance: `Compile.linearize` ∘ `to_standard_form` ∘ `into_tableau` ∘ step loop ∘ `as_lp_solution` -/
 
